@@ -100,7 +100,7 @@ HEADER_LAST = Ob("C14-H2", "R-ORDER", "write_info is the last file operation of 
 MUST_FLUSH = Ob("C14-F1", "R-ORDER", "every BufWriter on the write path is flushed with `?` before success is reported (output file x4, per-chromosome staging writer)", DU.ob_must_flush, floor=5)
 ERR_DISC = Ob("C14-E1", "R-ERR", "no Result is discarded on the write path (statement, `let _ =`, `.ok();`)", DU.ob_err_discipline)
 JOIN_RESULTS = Ob("C14-E2", "R-ERR", "the Result of every joined write task is propagated", DU.ob_join_results, floor=9)
-WRITE_LOOPS = Ob("C13-T2", "R-TERM", "every loop in bbiwrite/bigwigwrite/bigbedwrite/beddata/tempfilebuffer is classified as terminating (A/B/C/R/W)", TM.ob_write_loops, floor=21)
+WRITE_LOOPS = Ob("C13-T2", "R-TERM", "every loop in bbiwrite/bigwigwrite/bigbedwrite/beddata/tempfilebuffer is classified as terminating (A/B/C/R/W)", TM.ob_write_loops, floor=10)
 RTREE_LOOP = Ob("C13-T1", "R-TERM", "get_rtreeindex terminates for every section count (abstract domain {0,1,>=2})", TM.ob_rtree_loop)
 AUTOSQL_LOOPS = Ob("C19-M1", "R-TERM", "all loops of autosql.rs terminate; token loops exit at end of input (abstract run with every token = \"\")", TM.ob_autosql_loops, floor=7)
 CHROM_ORDER = Ob("C13-G8", "R-PRED", "chromosome-order refusal (serial: !allow && prev >= next; parallel: !allow && cur > next), empty input refused, foreign record in a slice refused", RF.ob_chrom_order, floor=4)
